@@ -108,6 +108,14 @@ def calendar_grid(rng, tier):
         for name in ("UTC", "utc", "Europe/Budapest", "Europe/Budapes", "", "Etc/GMT+12", "GMT0", "\u00e9"):
             nb = name.encode()
             out.append((P("tz"), bytes([ty]) + _vi(len(nb)) + nb))
+    # unknown zone names of every length up to 70 with a multi-byte character at every offset (error paths that
+    # quote or cut the rejected name)
+    for pad in range(0, 70):
+        for ch in ("\u00e9", "\u20ac", "\U0001F600"):
+            nb = ("a" * pad + ch + "zz").encode()
+            out.append((P("tz"), bytes([1]) + _vi(len(nb)) + nb))
+            if pad % 8 == 0:
+                out.append((P("dt_tz"), _vu(2024) + bytes([2, 29, 1, 2, 3]) + _vu(5) + bytes([1]) + _vi(len(nb)) + nb))
     for b in range(256):
         out.append((P("weekday"), bytes([b])))
         out.append((P("month"), bytes([b])))
